@@ -31,6 +31,11 @@ def gate(ctrl, tag, name, info=""):
         import signal
         os.kill(os.getppid(), signal.SIGKILL)
         os.kill(os.getpid(), signal.SIGKILL)
+    if mode.startswith("killcc:") and mode.split(":")[1] == name:
+        # the compiler alone dies on a signal (OOM killer, user kill); the caller survives
+        import signal
+        os.kill(os.getpid(), getattr(signal, mode.split(":")[2]))
+        time.sleep(5)
     if mode == "free":
         d = float(os.environ.get("RTM_C18_DELAY_%s" % name, "0") or 0)
         if d:
